@@ -134,6 +134,19 @@ func (ex *Exec) invokeDeferred(g *G, fr *Frame, d *deferred, done func(Value), p
 
 func (ex *Exec) step(g *G, fr *Frame) {
 	in := fr.block.Instrs[fr.ip]
+	if fr.fn.Synthetic != "" && fr.fn.Name() == "init" && (ex.inPBFile(in.Pos()) || ex.usesSkipped(fr, in)) {
+		// package initialiser: variable initialisers of protoc-gen-go files (raw descriptors, type tables) are skipped,
+		// and so is everything computed from them
+		switch in.(type) {
+		case *ssa.If, *ssa.Jump, *ssa.Return, *ssa.Panic:
+		default:
+			if v, ok := in.(ssa.Value); ok {
+				ex.set(fr, v, nil)
+			}
+			fr.ip++
+			return
+		}
+	}
 	switch x := in.(type) {
 	case *ssa.DebugRef:
 		fr.ip++
@@ -305,6 +318,29 @@ func (ex *Exec) step(g *G, fr *Frame) {
 		}
 		ex.unsupported(fmt.Sprintf("instruction %T", in))
 	}
+}
+
+// usesSkipped: some operand of in was produced by a skipped instruction (its slot is empty).
+func (ex *Exec) usesSkipped(fr *Frame, in ssa.Instruction) bool {
+	switch in.(type) {
+	case *ssa.Phi, *ssa.If, *ssa.Jump, *ssa.Return:
+		return false
+	}
+	var buf [8]*ssa.Value
+	for _, op := range in.Operands(buf[:0]) {
+		if op == nil || *op == nil {
+			continue
+		}
+		if i, ok := fr.info.nums[*op]; ok {
+			if _, isInstr := (*op).(ssa.Instruction); isInstr && fr.env[i] == nil {
+				if c, isCall := (*op).(*ssa.Call); isCall && c.Call.Signature().Results().Len() == 0 {
+					continue
+				}
+				return true
+			}
+		}
+	}
+	return false
 }
 
 func (ex *Exec) jump(fr *Frame, to *ssa.BasicBlock) {
